@@ -102,7 +102,21 @@ func RunOne(seed uint64, explicit []uint64, build Build, wantTrace, wantTape boo
 			w.fns[id]()
 		}(i)
 	}
-	wg.Wait()
+	simrt.WaitEnd()
+	if simrt.RealDeadlock() {
+		// a task is blocked outside the simulator (in a real blocking
+		// operation of the library or the standard library) and nothing that
+		// is left can release it: its goroutine is abandoned, the worker
+		// process ends after this run
+		where := "unknown"
+		if t := simrt.BlockedRealTask(); t >= 0 {
+			where = blockedWhere(simrt.GoID(t))
+		}
+		simrt.Report("hang:real-deadlock|"+where, "a task is blocked for ever in "+where+" (every other task has finished or waits for it)")
+		w.Finish = nil
+	} else {
+		wg.Wait()
+	}
 	for _, f := range w.Finish {
 		func() {
 			defer func() {
@@ -149,6 +163,40 @@ func RunOne(seed uint64, explicit []uint64, build Build, wantTrace, wantTape boo
 		res.Tape = simrt.TapeCopy()
 	}
 	return res
+}
+
+// blockedWhere returns the innermost library function on the stack of the
+// goroutine with the given id (or the innermost function at all).
+func blockedWhere(goid uint64) string {
+	buf := make([]byte, 1<<20)
+	n := runtime.Stack(buf, true)
+	head := fmt.Sprintf("goroutine %d [", goid)
+	text := string(buf[:n])
+	i := strings.Index(text, head)
+	if i < 0 {
+		return "unknown"
+	}
+	block := text[i:]
+	if j := strings.Index(block, "\n\n"); j > 0 {
+		block = block[:j]
+	}
+	first := ""
+	for _, ln := range strings.Split(block, "\n")[1:] {
+		if strings.HasPrefix(ln, "\t") || ln == "" {
+			continue
+		}
+		fn := ln
+		if k := strings.LastIndex(fn, "("); k > 0 {
+			fn = fn[:k]
+		}
+		if first == "" {
+			first = fn
+		}
+		if strings.HasPrefix(fn, ModulePrefix) {
+			return ShortFunc(fn)
+		}
+	}
+	return first
 }
 
 // evNames maps trace codes to names (registered by worlds at init).
